@@ -498,6 +498,12 @@ func (E *Engine) wellTyped(v *Term, t types.Type, env TEnv) *Term {
 			tb.Cmp("<=", tb.Arith("+", E.slcOff(v), E.slcCap(v)), tb.IntStr("9223372036854775807")),
 			tb.Implies(tb.Eq(E.slcArr(v), E.null()), tb.Eq(E.slcCap(v), tb.Int(0))))
 	}
+	if v.sort == SIfc {
+		if v.op == "mkiface" {
+			return tb.True()
+		}
+		return tb.And(tb.Cmp(">=", E.ifcTag(v), tb.Int(0)), tb.Implies(tb.Eq(E.ifcTag(v), tb.Int(0)), tb.Eq(E.ifcVal(v), E.null())))
+	}
 	if v.sort == E.strSort() {
 		if tb.useStrings {
 			return tb.Cmp("<=", E.strLen(v), tb.IntStr("9223372036854775807"))
